@@ -156,19 +156,20 @@ fn plant_samelen(path: &Path, output: &[u8]) {
 
 /// Damage by table region of an MPQ archive (user data / header at offset 0 as the builder writes it): the header's table
 /// pointers (hash table position @0x10, block table position @0x14, entry counts @0x18 / @0x1c, 16 bytes per entry) locate
-/// the tables; the file is cut strictly inside the named table (seed-chosen offset), everything stored before it intact.
+/// the tables; the file is cut inside the named table (seed-chosen offset within the class), everything stored before it intact.
 fn cut_in_table(bytes: &[u8], class: &str, rng: &mut Rng) -> Vec<u8> {
     let n = bytes.len();
     if n < 0x20 || &bytes[0..4] != b"MPQ\x1a" {
         tool_error("cut_in_table: reference archive does not start with an MPQ header");
     }
     let u = |o: usize| u32::from_le_bytes([bytes[o], bytes[o + 1], bytes[o + 2], bytes[o + 3]]) as usize;
-    let (pos, cnt) = if class == "cut_hash" { (u(0x10), u(0x18)) } else { (u(0x14), u(0x1c)) };
+    let (pos, cnt) = if class.starts_with("cut_hash") { (u(0x10), u(0x18)) } else { (u(0x14), u(0x1c)) };
     let len = (cnt * 16).min(n.saturating_sub(pos));
-    if pos == 0 || pos >= n || len < 2 {
-        tool_error(&format!("cut_in_table: {class}: table at {pos} (+{len}) not inside the {n}-byte archive"));
+    if pos == 0 || pos >= n || len < 32 {
+        tool_error(&format!("cut_in_table: {class}: table at {pos} (+{len}) not inside the {n}-byte archive or shorter than two entries"));
     }
-    let cut = pos + 1 + rng.below(len as u64 - 1) as usize;
+    // class "...0": no whole entry survives (0..15 bytes of the table are left); otherwise >= 1 whole entry is left and >= 1 is lost
+    let cut = if class.ends_with('0') { pos + rng.below(16) as usize } else { pos + 16 + rng.below(len as u64 - 31) as usize };
     bytes[..cut].to_vec()
 }
 
@@ -817,7 +818,7 @@ fn mpq1_case(cli: &Path, dir: &Path, c: &Value, seed: u64) -> Vec<Value> {
     }
     let mut bytes = std::fs::read(&arch).unwrap();
     let pristine = bytes.clone();
-    if input == "cut_hash" || input == "cut_block" {
+    if input.starts_with("cut_") {
         bytes = cut_in_table(&bytes, input, &mut rng);
     } else if input == "flagged" {
         // ruin the stored (zlib) data of readme.txt: the archive opens and lists, that file cannot be read
